@@ -167,3 +167,34 @@ def shape_keyed_randint(low, high, size, dtype=torch.int64, device=None, **kw):
     idx = _ORIG_RANDINT(0, 2**31 - 1, (n,), generator=g, dtype=torch.int64)
     span = int(high) - int(low)
     return (idx % span + int(low)).reshape(tuple(size)).to(dtype)
+
+
+EPS = {torch.float64: 2.0**-52, torch.float32: 2.0**-23, torch.bfloat16: 2.0**-7, torch.float16: 2.0**-10}
+
+
+def grads_differ(ga, gb, tol: float, names=None, floor_mult: float = 64.0):
+    """Compare two lists of gradients leaf by leaf. A gradient that is mathematically zero (e.g. of a key bias under softmax, of a
+    bias in front of a normalisation) is pure rounding noise of size ~eps x (largest gradient in the run): such leaves are compared
+    with an absolute floor of floor_mult * eps * global scale instead of relative to their own (meaningless) magnitude.
+    Returns None or a description of the first differing leaf."""
+    glob = 0.0
+    for b in gb:
+        if b is not None and b.numel():
+            glob = max(glob, float(b.detach().abs().max()))
+    for i, (a, b) in enumerate(zip(ga, gb)):
+        if a is None and b is None:
+            continue
+        if a is None:
+            a = torch.zeros_like(b)
+        if b is None:
+            b = torch.zeros_like(a)
+        if tuple(a.shape) != tuple(b.shape):
+            return f"{names[i] if names else 'leaf %d' % i}: shapes {tuple(a.shape)} vs {tuple(b.shape)}"
+        if not a.numel():
+            continue
+        eps = EPS.get(b.dtype, 2.0**-23)
+        leaf = max(float(b.detach().abs().max()), float(a.detach().abs().max()))
+        err = float((a.detach().double() - b.detach().double()).abs().max())
+        if not err <= tol * leaf + floor_mult * eps * glob:
+            return f"{names[i] if names else 'leaf %d' % i}: abs err {err:.3e} (leaf scale {leaf:.3e}, largest gradient {glob:.3e}, rel {err / max(leaf, 1e-300):.3e})"
+    return None
